@@ -1,7 +1,7 @@
 (** C02 - Attach, move, detach and children assignment have exactly the
     specified effect.  Only statements; proofs are [exact <lemma>]. *)
 Require Import AT.Model.Base AT.Model.Heap AT.Model.Mutate AT.Spec.MutSpec.
-Require AT.Proofs.MutParent AT.Proofs.MutHistory AT.Proofs.MutDelRun.
+Require AT.Proofs.MutParent AT.Proofs.MutHistory AT.Proofs.MutDelRun AT.Proofs.MutSetRun.
 Import AT.Proofs.MutParent.
 
 (** [n.parent = v] (v a node or None), hooks not raising, from any point of
@@ -47,16 +47,53 @@ Theorem C02_del : forall typed asrt n s,
 Proof. exact MutDelRun.del_children_run. Qed.
 Print Assumptions C02_del.
 
-(** Not yet proved in Coq (kept visible): the children assignment
-    and constructor effects, and their refusal iff.  They are decided on every
-    explored call by evaluating this very specification on the
-    implementation's observed states (Corr/Mut.v, spec02). *)
-Definition C02_children_full : Prop :=
-  forall typed asrt o s, Inv (heap_of s) -> valid_op (length (heap_of s)) o ->
-    fst (run_op typed asrt no_faults reentry_fuel o s)
-      = (match must_refuse typed (heap_of s) o with Some e => Err e | None => Ok tt end) /\
-    (must_refuse typed (heap_of s) o = None ->
-     heap_of (snd (run_op typed asrt no_faults reentry_fuel o s)) = expected_heap typed (heap_of s) o).
+(** [n.children = xs] for distinct existing nodes none of which is n or an
+    ancestor of n (i.e. a call that must not be refused), hooks not raising,
+    from any consistent state and with any re-entrancy fuel >= 1: it succeeds,
+    n.children is xs in that order, former children not in xs are roots, every
+    x has left its former parent's list (the others keep their order) and has
+    n as parent, every other field of every node - in particular everything
+    below the moved nodes - is unchanged ([eff_set_children] is that pointwise
+    description); the hook log is the specified one; the internal assertion
+    holds *)
+Theorem C02_children : forall typed asrt fu n xs s,
+  let h := heap_of s in
+  Inv h -> n < length h -> NoDup xs ->
+  (forall x, In x xs -> x < length h /\ x <> n /\ ~ In x (ancestors_of h n)) ->
+  set_children typed asrt no_faults (S fu) n (CList (map VNode xs)) s =
+  (Ok tt, st_after s (eff_set_children h n xs) (fst (log_set_children h n xs))).
+Proof. exact MutSetRun.set_children_run. Qed.
+Print Assumptions C02_children.
+
+(** refused with TreeError exactly when a child is listed twice or, for
+    NodeMixin-based classes, an element is not a tree node - before anything is
+    changed or any hook is called *)
+Theorem C02_children_treeerror : forall typed asrt fu n xs s,
+  (typed && has_non_node xs) || has_dup [] xs = true ->
+  set_children typed asrt no_faults (S fu) n (CList xs) s = (Err TreeError, s).
+Proof. exact MutSetRun.set_children_treeerror. Qed.
+Print Assumptions C02_children_treeerror.
+Theorem C02_children_not_iterable : forall typed asrt faults fu n s,
+  set_children typed asrt faults (S fu) n CNotIterable s = (Err TypeError, s).
+Proof. reflexivity. Qed.
+Print Assumptions C02_children_not_iterable.
+
+(** otherwise refused with LoopError when a new child is the node itself or
+    one of its ancestors (together with C02_children: exactly then) *)
+Theorem C02_children_looperror : forall typed asrt fu n pre x post s,
+  let h := heap_of s in
+  Inv h -> n < length h -> NoDup (pre ++ x :: post) ->
+  (forall y, In y pre -> y < length h /\ y <> n /\ ~ In y (ancestors_of h n)) ->
+  x < length h -> (x = n \/ In x (ancestors_of h n)) ->
+  fst (set_children typed asrt no_faults (S (S fu)) n (CList (map VNode (pre ++ x :: post))) s) = Err LoopError.
+Proof. exact MutSetRun.set_children_looperror. Qed.
+Print Assumptions C02_children_looperror.
+
+(** Kept visible, not proved: the constructors as "fresh root, then the two
+    assignments" (decided by the correspondence check: spec_run in Corr/Mut.v). *)
+Definition C02_constructors_full : Prop :=
+  forall typed asrt p c h, Inv h -> valid_op (length h) (Construct p c) ->
+    Inv (heap_of (snd (run_op typed asrt no_faults reentry_fuel (Construct p c) (start h)))).
 
 Example C02_example :
   let h := attach_links (attach_links (attach_links (init 4) 1 0) 2 0) 3 1 in
